@@ -531,3 +531,18 @@ Proof.
   pose proof (key_cmp_spec kf ra rb ka kb Ka Kb Hb Ea Eb) as Hc.
   cbv zeta. split; [exact Hc|]. exact (operators_from_cmp _ _ _ Hc).
 Qed.
+
+(* ---------- str(key) ---------- *)
+Lemma key_str_cases k :
+  match k with
+  | KCoord c => key_str k = Ok (ckey_str c)
+  | KBar t n c =>
+      (exists a b, t = PStr a /\ n = PStr b /\ key_str k = Ok (join [TAB] [a; b; ckey_str c])) \/
+      ((forall a, t <> PStr a) \/ (forall b, n <> PStr b)) /\ key_str k = Raise TypeError
+  end.
+Proof.
+  destruct k as [c|t n c]; [reflexivity|].
+  destruct t as [|z|a]; try (right; split; [left; intros a; discriminate|reflexivity]).
+  destruct n as [|z|b]; try (right; split; [right; intros b; discriminate|reflexivity]).
+  left. exists a, b. auto.
+Qed.
